@@ -84,7 +84,7 @@ template <class C> struct Runner {
 };
 
 void run(Ctx &ctx) {
-    Local lc; int n = ctx.secondary ? 2 : ctx.quick() ? 3 : 4;
+    Local lc; int n = (ctx.secondary ? 2 : ctx.quick() ? 3 : 4) + ctx.bonus;
     std::vector<Str> bases = resolve_bases(true), refs = resolve_refs(n);
     Runner<char> ra(&ctx, &lc); Runner<wchar_t> rw(&ctx, &lc); ra.setup(bases); rw.setup(bases);
     for (size_t i = 0; i < refs.size(); i++) {
